@@ -7,6 +7,7 @@ pub mod c10;
 pub mod c11;
 pub mod c12;
 pub mod c14;
+pub mod c15;
 pub mod c16a;
 pub mod c17;
 pub mod c18;
@@ -22,6 +23,7 @@ pub fn get(id: &str, tier: Tier) -> Option<PropertyDef> {
         "C11" => Some(c11::def(tier)),
         "C12" => Some(c12::def(tier)),
         "C14" => Some(c14::def(tier)),
+        "C15" => Some(c15::def(tier)),
         "C16" => Some(crate::engine::PropertyDef { id: "C16", rule: "A: library level incremental index", assumptions: vec![], subs: vec![c16a::def_sub(tier)], workers: 16 }),
         "C17" => Some(c17::def(tier)),
         "C18" => Some(c18::def(tier)),
